@@ -3,12 +3,15 @@ CONFIG = {
         "text": "PARTIAL (leader election, log replication, durable storage = hashicorp/raft + boltdb, not modelled: they enter as the hypothesis RaftLog). "
                 "Theorems (Qed, closed under the global context) on a Gallina model built on C06's metadata FSM: Data.unmarshal(Data.marshal d) = d for every "
                 "metadata value satisfying the representation predicate wf, wf holds for every value reachable by any command log whose arguments have their Go types "
-                "(and whose shard-group timestamps are >= MinInt64 + the shard-group duration bound), with marshal/unmarshal modelled field by field incl. uint32/int32/UnixNano "
+                "(every int64 timestamp since fix 78b5206), with marshal/unmarshal modelled field by field incl. uint32/int32/UnixNano "
                 "conversions, optional TruncatedAt, DeletedAt stamps, privilege maps, recomputed adminUserExists; any two replicas satisfying RaftLog converge (canonical "
                 "metadata), snapshot at any index + replay of the suffix = the whole log, a client cache = the leader's value; a snapshot or published value taken at any point "
                 "of any schedule still reads, after any further commands, the value at that point (heap model with aliasing for Clone / Snapshot / in-place Term+Index stamps and "
                 "node-list writes; every other slice/map a *Data reaches is copied by Clone - all 12 fields re-read from the source - and a copied slice is proved unaffected by append/remove/assign through the copy); for EVERY byte string, validateCommand accepting it implies storeFSM.Apply does not panic on it (type and extension tables re-read "
-                "from the source each run). The same model and an executable spec are evaluated in Coq against the real storeFSM (Snapshot, further commands, Persist, Restore "
+                "from the source each run); store.remove's reset decision (re-read from the source) never wipes the store of a node that removes ANOTHER raft peer. "
+                "MONITOR (observed, not proved; raft membership is outside the model): in both tiers four membership scenarios run on real meta services (join 1->2, /remove of the "
+                "follower of a 2-node and of a 3-node cluster, /leave + re-join, with acknowledged commands before and after): no surviving node's index goes backwards, cluster id kept, "
+                "every acknowledged database present, survivors equal to the model applied to the acknowledged log. The same model and an executable spec are evaluated in Coq against the real storeFSM (Snapshot, further commands, Persist, Restore "
                 "into a fresh store, replay) and the real validateCommand/Apply on designed + generated inputs.",
         "note": "Trusts Coq kernel, genconsts translator, the harness and its canonical dump; RaftLog (raft's guarantees) is an assumption, validated only by the thorough-tier soak; "
                 "protobuf wire encoding = identity on the generated structs (Section hypothesis); privilege-map iteration order not modelled (compared as sets); "
@@ -26,9 +29,9 @@ CONFIG = {
     "bytes_keys": ["b"],
     "extra_proof_files": ["ProofsMarshal", "ProofsWf", "ProofsHeap", "ProofsSlice"],
     "harness_timeout": {"quick": 600, "thorough": 3000},
-    "rule": "corpus first (the probe schedules of the five repaired defects: node-list aliasing through Clone for a published value and for a pending snapshot, Subscriptions array shared by "
+    "rule": "membership monitor (4 fixed scenarios on real meta services, run concurrently, both tiers; thorough: a second set with more commands); corpus first (the probe schedules of the five repaired defects: node-list aliasing through Clone for a published value and for a pending snapshot, Subscriptions array shared by "
             "RetentionPolicyInfo.clone (drop of a non-last subscription; append after a shrink), Term/Index restamp of a pending "
-            "snapshot by a rejected command, group truncated at the Unix epoch, every rejected envelope shape; the open finding: shard group starting before the int64 nanosecond range), then "
+            "snapshot by a rejected command, group truncated at the Unix epoch, every rejected envelope shape; the former finding repaired by 78b5206: shard group for a timestamp next to MinInt64), then "
             "designed raw envelopes (every command type x {valid, no extension, wrong extension, own+other extension, empty body, body cut, body garbage, extension as varint, truncated, "
             "extension before type, type twice} + unknown/negative type numbers + garbage), then seeded generation: 60% schedules of 8..48 commands (thorough: every 10th 100..220) of all 28 "
             "modelled kinds from C06's generator, with Snapshot()/store.snapshot() taken at random points (biased to just before node-list and subscription/user/policy-list mutations; policies with several subscriptions), persisted after further commands, restored "
@@ -41,32 +44,21 @@ CONFIG = {
         "C07: the harness drives storeFSM.Snapshot/Persist/Restore, store.snapshot(), validateCommand through services/meta/verif_export_c07.go (in-memory raft.SnapshotSink); Persist is called from the "
         "same goroutine (the interleaving with Apply is sequential: data races during a concurrent Persist are outside the model)",
         "C07: dumps as in C06 (groups by ID, privileges by database, exact unix nanoseconds) plus the (group ID, DeletedAt) pairs; Go's append growth only matters for the unrepaired shallow Clone",
-        "C07: command/extension tables, 'Clone copies node lists', 'every slice/map field of every struct reachable from Data is assigned in its clone method', 'Snapshot clones', "
+        "C07: membership scenarios and the thorough soak start real meta.Service instances on loopback ports with temp directories; a scenario that does not settle in time without any node "
+        "regressing (index backwards / cluster id changed) is counted inconclusive and emits nothing; commands are POSTed as raw protobuf to /execute, membership through /join, /remove, /leave",
+        "C07: command/extension tables, 'store.remove resets iff len(s.peers()) <= 1', 'Clone copies node lists', 'every slice/map field of every struct reachable from Data is assigned in its clone method', 'Snapshot clones', "
         "'validateCommand checks extension' are re-read from the source by genconsts each run; the heap machine keeps everything but the two node lists by value on the strength of that fact and of the differential run",
     ],
+    "monitors": ["membership (store.join/remove/leave/reset over real hashicorp/raft): OBSERVED on 4 fixed scenarios per run, NOT proved; only store.remove's reset decision has a theorem (remove_keeps_metadata)"],
     "modelled": "services/meta/data.go marshal/unmarshal of Data and every nested type, Clone; store_fsm.go Snapshot/Persist/Restore and the head of Apply (unmarshal, type switch, GetExtension + "
-                "type assertion); handler.go validateCommand; store.snapshot(). NOT modelled: raft_state.go, client.go long polling/retry, service.go, the HTTP layer, hashicorp/raft, boltdb",
+                "type assertion); handler.go validateCommand; store.snapshot(). store.go remove: only the reset decision. NOT modelled: raft membership (join/leave/remove/reset beyond that decision: monitored), raft_state.go, client.go long polling/retry, service.go, the HTTP layer, hashicorp/raft, boltdb",
     "assumptions": ["RaftLog: hashicorp/raft delivers to every replica a prefix of one committed log and only ever installs images persisted from a state at the same log position",
                     "protobuf decode(encode(x)) = x on the generated structs",
                     "wall-clock deletion stamps are not the Unix epoch (time.Now().UnixNano() != 0)",
-                    "shard groups are not created for timestamps within one shard-group duration of MinInt64 (else: open finding C07:group-start-before-int64-range)",
                     "everything C06 assumes"],
 }
 
 
 def classify(case):
-    """The open finding: a shard group whose StartTime lies before the int64-nanosecond range
-    (CreateShardGroup for a timestamp within ShardGroupDuration of MinInt64) is marshalled with a
-    wrapped UnixNano.  Exactly that shape: every handle that fails was taken from a value that
-    contains such a group, it was stable, and what differs is the restored value (and hence
-    possibly the replay); handles without such a group all pass."""
-    if case.get("kind") != "snap":
-        return None
-    hs = ((case.get("obs") or {}).get("handles")) or []
-    bad = [h for h in hs if not h.get("ok")]
-    if not bad:
-        return None
-    for h in bad:
-        if not (h.get("wrapped") and h.get("stable") and h.get("later_same") and h.get("stamps_same") and not h.get("restored_same")):
-            return None
-    return "C07:group-start-before-int64-range"
+    # no open finding: the former C07:group-start-before-int64-range was repaired by 78b5206
+    return None
